@@ -237,8 +237,9 @@ class BaseFileLock(abc.ABC):
             except:  # noqa
                 _logger.exception("Failed to release lock %s on %s", lid, fn)
             else:
-                self._lock_counter = 0
                 _logger.info('Lock %s released on %s', lid, fn)
+            # The descriptor is given up even if unlocking failed
+            self._lock_counter = 0
 
         try:
             for _ in range(levels):
